@@ -34,10 +34,29 @@ CHECKS = {
             "Real calls with hostile results and raised exception kinds; the monitor checks by object identity what postconditions, "
             "error factories and the caller received, and the exact postcondition trace against the model.",
             "Executions produced only; trusted: model CNF semantics, harness tokens are unique objects.", "3/C02"),
+    "C05": ("exploration", "runtime monitoring: identity of objects received by probes vs. the body and vs. inspect.signature().bind",
+            "Bounded-exhaustive: all signatures up to 4 (thorough 5) named parameters x all call shapes Python accepts, plus sampled wide "
+            "signatures; every probe (precondition, snapshot, postcondition, error factory) logs the objects it received, compared by "
+            "identity with what the body received and what Python's binder computes; foreign names must give TypeError.",
+            "Executions produced only; exhaustive inside the stated bound; variadic parameter names themselves are a silent zone.", "3/C05"),
     "C08": ("exploration", "runtime monitoring: capture events positioned in the probe log, OLD identity, definition-time misuse matrix",
             "Capture multiplicity/position judged on the observed event log for generated callables and hierarchies; OLD objects "
             "compared by identity with what captures returned; misuse programs must raise at definition.",
             "Executions produced only; trusted: model's snapshot rules.", "3/C08"),
+    "C09": ("exploration", "runtime monitoring: exception type/identity/args at the caller, counting and identity-tracking error factories",
+            "Full product error form x role x callable kind x sync/async x condition form, factories over every subset of nameable "
+            "values incl. non-exception returns; invalid error arguments on every decorator. The monitor inspects the exception "
+            "object the caller catches and the factory's received objects.",
+            "Executions produced only; exhaustive over the listed finite product (factory subsets sampled beyond 24/64).", "3/C09"),
+    "C15": ("exploration", "runtime monitoring in subprocesses: interpreter mode x ICONTRACT_SLOW matrix, object identity and event counters",
+            "The same instrumented program is executed under python, -O and -OO with ICONTRACT_SLOW unset/empty/non-empty; the child "
+            "reports identity of decorated vs. original objects, attribute sets, probe events, verdicts and messages; the parent "
+            "judges each (item, configuration) and compares enabled=True items across modes.",
+            "Exhaustive over the 9 (thorough 15) configurations x 60 items; trusted: subprocess isolation.", "3/C15"),
+    "C19": ("exploration", "runtime monitoring: exception class and moment (definition vs call) of generated misuse programs, body-event counters",
+            "Finite misuse matrix (reserved names, result/OLD, invariant signatures, coroutine invariants, snapshot placement, invalid "
+            "errors) x decorator x callable kind, each with positive controls; exhaustive.",
+            "Exhaustive over the stated matrix; silent zones listed in DESIGN.md.", "3/C19"),
     "C16": ("exploration", "runtime monitoring: full event trace vs. the reference model's exact sequence",
             "Exact order of every probe event and identity of the surfaced error compared with the model over DAG shapes x kinds x "
             "truth assignments with several falsy contracts.",
